@@ -19,7 +19,9 @@ IsWord(c) == (c >= 48 /\ c <= 57) \/ (c >= 65 /\ c <= 90) \/ (c >= 97 /\ c <= 12
 WordAt(s, i) == i >= 1 /\ i <= Len(s) /\ IsWord(Chr(s, i))
 \* simple case folding for the alphabets used here: ASCII letters, and the Latin-1 pair 0xC9/0xE9
 \* plus the two non-ASCII runes that fold to ASCII letters: U+017F (long s) ~ s, U+212A (Kelvin sign) ~ k
-Lower(c) == IF c >= 65 /\ c <= 90 THEN c + 32 ELSE IF c = 201 THEN 233 ELSE IF c = 383 THEN 115 ELSE IF c = 8490 THEN 107 ELSE c
+\* and one non-letter pair with case variants: U+2167 (Roman numeral eight) ~ U+2177
+Lower(c) == IF c >= 65 /\ c <= 90 THEN c + 32 ELSE IF c = 201 THEN 233 ELSE IF c = 383 THEN 115 ELSE IF c = 8490 THEN 107
+            ELSE IF c = 8551 THEN 8567 ELSE c
 EqFold(a, b, fold) == IF fold THEN Lower(a) = Lower(b) ELSE a = b
 BackrefBase == 57344
 IsBackref(r) == r >= BackrefBase /\ r < BackrefBase + 10
